@@ -35,6 +35,8 @@ pub struct PpCfg {
     pub define_via: bool,
     /// `include directives that stand in a macro body (`define INCB `include "f" / `INCB)
     pub include_via_body: bool,
+    /// every fourth included file ends without a final newline (its last token then meets whatever follows the directive)
+    pub file_no_final_newline: bool,
 }
 
 impl PpCfg {
@@ -58,6 +60,7 @@ impl PpCfg {
             glue: false,
             define_via: false,
             include_via_body: false,
+            file_no_final_newline: false,
         }
     }
 }
@@ -621,6 +624,11 @@ impl<'a, 'b> G<'a, 'b> {
         }
         let first_dir = self.t.below(ndirs);
         let chosen_path = format!("{}/{}", self.include_paths[first_dir], name);
+        let style = match self.t.weighted(&[5, 2, if self.cfg.macros { 2 } else { 0 }]) {
+            0 => IncStyle::Quote,
+            1 => IncStyle::Angle,
+            _ => IncStyle::Macro(String::new()),
+        };
         // generate the file content now (defines flow in and out)
         let saved_file = self.cur_file;
         let idx = self.files.len();
@@ -628,8 +636,12 @@ impl<'a, 'b> G<'a, 'b> {
         self.cur_file = idx;
         self.include_depth += 1;
         let mut items = self.items(true, depth);
-        // an included file ends with a newline so the includer's next line starts fresh
-        items.push(Item::Text(vec![(Piece::Ident(format!("t{}", self.uid())), "\n".to_string())]));
+        // an included file usually ends with a newline; without one its last token is followed directly by the white
+        // space that stands behind the `include directive (which always starts a new line)
+        // (not for `include `MACRO: there the white space behind the directive is dropped - listed finding K19 - and the
+        // file's last token would run into the includer's next line)
+        let last_ws = if self.cfg.file_no_final_newline && !matches!(style, IncStyle::Macro(_)) && self.t.chance(1, 4) { "" } else { "\n" };
+        items.push(Item::Text(vec![(Piece::Ident(format!("t{}", self.uid())), last_ws.to_string())]));
         self.include_depth -= 1;
         self.cur_file = saved_file;
         self.files[idx].items = items;
@@ -647,11 +659,6 @@ impl<'a, 'b> G<'a, 'b> {
                 }
             }
         }
-        let style = match self.t.weighted(&[5, 2, if self.cfg.macros { 2 } else { 0 }]) {
-            0 => IncStyle::Quote,
-            1 => IncStyle::Angle,
-            _ => IncStyle::Macro(String::new()),
-        };
         let ws = self.nl();
         let id = self.uid();
         Some(Item::Include { id, name, style, ws_after: ws })
